@@ -33,8 +33,9 @@ RULE = (
 )
 ASSUMPTIONS = [
     "trusted: mc/c02_ref.py (exact integration with fractions.Fraction), numpy float64 arithmetic",
-    "tolerance 1e-9*max(1,|ref|) on map values, 1e-9*max(1,|t|)*... on inverse positions (smallest effect of "
-    "a defect is 1/(6*8) of a unit)",
+    "tolerance 1e-9*max(1,|ref|) on map values and on positions returned by the inverse maps (the smallest "
+    "effect of a defect in the bounds is 1/24 of a unit at one position); positions c +- 1e-6 next to every "
+    "change point c are compared with the same tolerance",
     "a part opens with a pickup measure iff a measure starts at the first time point together with a time "
     "signature and is shorter than that signature (compared in the unit of the map; if a signature changes "
     "inside the first measure the comparison in quarters is accepted too; if no signature starts with the "
@@ -293,11 +294,13 @@ class MapCheck(object):
                     t = int(pos[i])
                     v = fwd(t)
                     self.calls += 2
-                    if np.ndim(v) != 0 or not close(v, exp[i]):
+                    # the shape of the answer to a scalar is not prescribed: any single value is accepted
+                    if np.size(v) != 1 or not close(np.asarray(v).reshape(-1)[0], exp[i]):
                         self.fail(name + "-scalar", {"t": t, "value": exp[i]}, repr(v), fwd_name, "python int argument")
                         break
-                    w = inv(float(v))
-                    if np.ndim(w) != 0 or not close(w, t):
+                    v = float(np.asarray(v).reshape(-1)[0])
+                    w = inv(v)
+                    if np.size(w) != 1 or not close(np.asarray(w).reshape(-1)[0], t):
                         self.fail(name + "-scalar", {"value": float(v), "t": t}, repr(w), inv_name, "python float argument")
                         break
                 li = [int(pos[i]) for i in ints]
@@ -343,15 +346,9 @@ class MapCheck(object):
             for t in range(0, hi + 1):
                 v = qm(t)
                 self.calls += 1
-                if np.ndim(v) != 0 or float(v) != qdur_at(divs, t):
+                if np.size(v) != 1 or float(np.asarray(v).reshape(-1)[0]) != qdur_at(divs, t):
                     self.fail("quarter-duration-map", {"t": t, "divs": qdur_at(divs, t)}, repr(v),
                               "Part.quarter_duration_map", "scalar call, table %r" % (divs,))
-                    return
-            # the time points carry the divisions in force
-            for tp in part._points:
-                if tp.quarter != qdur_at(divs, tp.t):
-                    self.fail("quarter-duration-map", {"t": int(tp.t), "divs": qdur_at(divs, tp.t)}, tp.quarter,
-                              "TimePoint.quarter", "table %r" % (divs,))
                     return
         except Exception as ex:  # noqa
             self.exc("quarter-duration-map", ex)
@@ -530,9 +527,9 @@ def gen_quarter(scope):
         L, q0s, vals, meters, kmax = 6, QS, QS, METERS, 2
     for t0 in (0, 2):
         last = t0 + L
-        for style in (("ctor",) if t0 == 0 else ("ctor", "set")):
+        for style in (("ctor",) if t0 == 0 else (("set",) if scope == "core" else ("ctor", "set"))):
             for tab in q_tables(q0s, vals, range(1, L), kmax):
-                if style == "set" and tab[0][1] == 1:
+                if style == "set" and tab[0][1] == 1 and scope != "core":
                     continue  # same table as 'ctor'
                 divs = shift_divs(tab, t0, style)
                 for b, bt in meters:
@@ -624,7 +621,7 @@ def gen_modes(scope):
     """every history of beat-mode operations up to a depth, on a fixed set of structures"""
     depth = 3 if scope == "core" else 4
     structs = []
-    for t0 in (0, 2):
+    for t0 in ((0,) if scope == "core" else (0, 2)):
         last = t0 + 6
         for divs in ([[0, 2]], [[0, 1], [t0 + 3, 2]]):
             for ts in ([[t0, 6, 8]], [[t0, 4, 4], [t0 + 2, 6, 8]], [[t0, 9, 8], [t0 + 3, 3, 4], [t0 + 5, 12, 8]],
@@ -779,10 +776,10 @@ BOUNDS = {
                    "pickup length",
 }
 CORE_TXT = {
-    "quarter-tables": "core: divisions {1,2,3}, meters 4/4 6/8 5/8 3/2",
+    "quarter-tables": "core: divisions {1,2,3}, meters 4/4 6/8 5/8 3/2, first point 2 only with the table set at the first point",
     "signature-tables": "core: divisions {1,2}; 1 change over 4/4 6/8 5/8 3/2, 2 changes over 4/4 6/8 3/2",
     "mixed-changes": "core: divisions q0 {1,2} -> {1,2,3}, meters 4/4 6/8 3/2; 2x2 with two fixed value sequences",
-    "beat-mode-histories": "core: depth 3",
+    "beat-mode-histories": "core: depth 3 on the 24 structures with first point 0",
     "edited-parts": "core: every single edit on every base; every pair over a reduced alphabet on 4 bases",
     "edge-shapes": "core: bars up to 14 divisions",
 }
@@ -790,7 +787,7 @@ FULL_TXT = {
     "quarter-tables": "divisions {1,2,3,4,6}, all 10 meters, plus 3 changes (t0=0, 3 meters, 4 measures)",
     "signature-tables": "divisions {1,2,3}; 1 change over all 10 meters, 2 changes over 4/4 6/8 5/8 3/2 9/8",
     "mixed-changes": "q0 {1,2,3} -> {1,2,3,4,6}, meters 4/4 6/8 5/8 3/2 9/8; 2x2 over divisions {1,2,3} and 4/4 6/8 3/2",
-    "beat-mode-histories": "depth 4",
+    "beat-mode-histories": "depth 4 on all 48 structures",
     "edited-parts": "every single edit and every pair of edits over the full alphabet on every base",
     "edge-shapes": "bars up to 36 divisions",
 }
@@ -822,7 +819,12 @@ def spaces(tier, seed):
             out.append(Space(name, cases, exhaustive=True, bounds=BOUNDS[name] + "; " + FULL_TXT[name]))
         else:
             def core(gen=gen):
-                return gen("core")
+                seen = set()
+                for c in gen("core"):
+                    k = _key(c)
+                    if k not in seen:
+                        seen.add(k)
+                        yield c
 
             out.append(Space(name + "/core", core, exhaustive=True, bounds=BOUNDS[name] + "; " + CORE_TXT[name]))
             blk = seed % NBLOCKS
